@@ -1,5 +1,6 @@
 import Saito.Lemmas.ChainState
 import Saito.Lemmas.LoopRefine
+import Saito.Lemmas.StateInv
 /-!
 # C03 — ledger state equals a replay of the longest chain
 Theorems over the chain model (`Saito/Model/Chain.lean`, tied to `Blockchain::add_block` by the `chain`
@@ -93,47 +94,8 @@ theorem validate_reorg_success_ledger (fl : Flags) (hf : fl.windFailureRestores 
 theorem ritem_delete_add (fl : Flags) (hf : fl.ringDeleteKeepsNone = true) (it : RItem) (id h : Nat)
     (hnew : ∀ e ∈ it.ents, ¬(e.2 = id ∧ e.1 = h))
     (hlc : ∀ p, it.lc = some p → p < it.ents.length) :
-    (it.add id h).delete fl id h = it := by
-  have hfilter : (it.ents ++ [(h, id)]).filter (fun e => !(e.2 == id && e.1 == h)) = it.ents := by
-    rw [List.filter_append]
-    have h1 : it.ents.filter (fun e => !(e.2 == id && e.1 == h)) = it.ents := by
-      apply List.filter_eq_self.2
-      intro e he
-      have := hnew e he
-      simp only [Bool.not_eq_true', Bool.and_eq_false_iff, beq_eq_false_iff_ne]
-      by_cases h2 : e.2 = id
-      · right; intro h1; exact this ⟨h2, h1⟩
-      · left; exact h2
-    rw [h1]; simp
-  cases hl : it.lc with
-  | none =>
-    simp [RItem.delete, RItem.add, hl, hf]
-    cases it; simp_all
-  | some p =>
-    have hp := hlc p hl
-    have hget : (it.ents ++ [(h, id)])[p]? = it.ents[p]? := by
-      rw [List.getElem?_append_left hp]
-    obtain ⟨e, he⟩ : ∃ e, it.ents[p]? = some e := ⟨it.ents[p], by simp [hp]⟩
-    have hmem : e ∈ it.ents := List.mem_of_getElem? he
-    have hne := hnew e hmem
-    have hcond : (e.2 == id && e.1 == h) = false := by
-      simp only [Bool.and_eq_false_iff, beq_eq_false_iff_ne]
-      by_cases h2 : e.2 = id
-      · right; intro h1; exact hne ⟨h2, h1⟩
-      · left; exact h2
-    have htake : ((it.ents ++ [(h, id)]).take p).filter (fun x => !(x.2 == id && x.1 == h)) = it.ents.take p := by
-      rw [List.take_append_of_le_length (Nat.le_of_lt hp)]
-      apply List.filter_eq_self.2
-      intro x hx
-      have hx' : x ∈ it.ents := List.mem_of_mem_take hx
-      have := hnew x hx'
-      simp only [Bool.not_eq_true', Bool.and_eq_false_iff, beq_eq_false_iff_ne]
-      by_cases h2 : x.2 = id
-      · right; intro h1; exact this ⟨h2, h1⟩
-      · left; exact h2
-    simp only [RItem.delete, RItem.add, hl, survivorPos, hget, he, hcond, hfilter, htake]
-    simp [List.length_take, Nat.min_eq_left (Nat.le_of_lt hp)]
-    cases it; simp_all
+    (it.add id h).delete fl id h = it :=
+  Saito.Chain.RItem.delete_add fl hf it id h hnew hlc
 
 /-- pinned `RingItem::delete_block`: deleting a rejected sibling from an item that carried no on-chain mark
     marks index 0 as on-chain (the defect behind "deleting a rejected sibling marks an unrelated block") -/
@@ -144,5 +106,230 @@ theorem ritem_delete_witness :
 example : CleanSeg [1, 2] [{ hash := 7, prev := 1, id := 2, burnfee := 0, hasGT := false, ok := true, ins := [1], outs := [3] },
     { hash := 8, prev := 7, id := 3, burnfee := 0, hasGT := false, ok := true, ins := [3, 2], outs := [4] }] := by
   simp [CleanSeg, CleanAt, mem_windU]
+
+
+/-! ### the state invariant across `add_block` (`Saito/Lemmas/StateInv.lean`)
+`StInv st`: some list `lc` of stored blocks is the longest chain of `st` — `lcDump`, `latest`, the on-chain flags,
+the spendable set (= replay of `lc`, wound cleanly) and the by-height index all agree with it
+(`StInv.observables`).  `InvX 0 st lc` is the same statement with the chain named.
+Side conditions carried by the invariant: `loadingDone = false`, every stored id in `1 … gp − 1`.
+Flags: `ringDeleteKeepsNone`, `windFailureRestores` (the repaired tree) and `txVerdict` (without the
+per-transaction verdict a block with unspendable inputs is wound and the ledger stops being a clean replay);
+`orphanInert` and `gtEveryBlock` are arbitrary.  Deliveries: `Deliverable st b` (non-orphan, fresh hash,
+`id < gp`, unique utxo keys; the first block has id 1 and no inputs). -/
+
+/-- (i) a block that is already stored: outcome `exists_`, nothing changes -/
+theorem addBlock_exists_unchanged (fl : Flags) (st : State) (b : ABlock) (q : List Nat) (h : StInv st)
+    (he : (getB st b.hash).isSome = true) : addBlock fl st b q = (st, .exists_) := by
+  obtain ⟨lc, h⟩ := h
+  rw [addBlock_eq']
+  unfold addBlock'
+  simp only [h.latest, he, if_true]
+
+/-- (i) outcome `addedSide`: the chain is the one before the call -/
+theorem addBlock_addedSide_inv (fl : Flags) (hd : fl.ringDeleteKeepsNone = true) (hf : fl.windFailureRestores = true)
+    (hv : fl.txVerdict = true) (st : State) (lc : List ABlock) (b : ABlock) (q : List Nat)
+    (h : InvX 0 st lc) (d : Deliverable st b) (ho : (addBlock fl st b q).2 = .addedSide) :
+    InvX 0 (addBlock fl st b q).1 lc ∧ lcDump (addBlock fl st b q).1 = lcDump st ∧
+      latest (addBlock fl st b q).1 = latest st := by
+  rcases addBlock_cases fl hd hf hv h d q with h1 | h1 | h1
+  · exact ⟨h1.2, by rw [h1.2.lcDump, h.lcDump], by rw [h1.2.latest, h.latest]⟩
+  · rw [ho] at h1; exact absurd h1.1 (by decide)
+  · rw [ho] at h1; rcases h1.1 with h2 | h2 <;> exact absurd h2 (by decide)
+
+/-- (ii)+(iv) outcome `addedLc`: the chain `P ++ O` became `P ++ N`, where `N` ends in the delivered block, is
+    strictly longer than the segment `O` it replaces, and its other blocks were stored but off the chain
+    (tip extension: `O = []`, `N = [b]`, see `addBlock_extends_tip`) -/
+theorem addBlock_addedLc_inv (fl : Flags) (hd : fl.ringDeleteKeepsNone = true) (hf : fl.windFailureRestores = true)
+    (hv : fl.txVerdict = true) (st : State) (lc : List ABlock) (b : ABlock) (q : List Nat)
+    (h : InvX 0 st lc) (d : Deliverable st b) (ho : (addBlock fl st b q).2 = .addedLc) :
+    ∃ P O N, lc = P ++ O ∧ InvX 0 (addBlock fl st b q).1 (P ++ N) ∧ O.length < N.length ∧ N.getLast? = some b ∧
+      ∀ c ∈ N.dropLast, c ∈ stored st ∧ c ∉ lc := by
+  rcases addBlock_cases fl hd hf hv h d q with h1 | h1 | h1
+  · rw [ho] at h1; exact absurd h1.1 (by decide)
+  · rw [ho] at h1; exact absurd h1.1 (by decide)
+  · exact h1.2
+
+/-- (ii) tip extension: the delivered block's parent is the tip (or it is the first block) and the outcome is
+    `addedLc` — the old chain is empty and the new chain is the old one plus `b` -/
+theorem addBlock_extends_tip (fl : Flags) (hd : fl.ringDeleteKeepsNone = true) (hf : fl.windFailureRestores = true)
+    (hv : fl.txVerdict = true) (st : State) (lc : List ABlock) (b : ABlock) (q : List Nat)
+    (h : InvX 0 st lc) (d : Deliverable st b) (ho : (addBlock fl st b q).2 = .addedLc)
+    (htip : lc = [] ∨ ∃ t, lc.getLast? = some t ∧ b.prev = t.hash) :
+    InvX 0 (addBlock fl st b q).1 (lc ++ [b]) := by
+  obtain ⟨P, O, N, e1, hinv, hlen, hlast, hoff⟩ := addBlock_addedLc_inv fl hd hf hv st lc b q h d ho
+  have hN : N = N.dropLast ++ [b] := by
+    have hne : N ≠ [] := by intro e; subst e; simp at hlen
+    have := (List.dropLast_concat_getLast hne).symm
+    rw [List.getLast?_eq_some_getLast hne] at hlast
+    rw [Option.some.inj hlast] at this
+    exact this
+  -- no off-chain block below `b`
+  have hdrop : N.dropLast = [] := by
+    cases hdl : N.dropLast.reverse with
+    | nil => exact List.reverse_eq_nil_iff.1 hdl
+    | cons z zs =>
+      exfalso
+      have hz : z ∈ N.dropLast := by rw [← List.mem_reverse, hdl]; simp
+      obtain ⟨hzS, hzl⟩ := hoff z hz
+      have hch : ChainR (b :: z :: (zs ++ P.reverse)) := by
+        have := hinv.chainOk.chain
+        rw [hN, List.reverse_append, List.reverse_append, hdl] at this
+        simpa using this
+      rcases htip with h0 | ⟨t, ht, hbt⟩
+      · subst h0
+        cases hzS' : stored st with
+        | nil => rw [hzS'] at hzS; cases hzS
+        | cons a l =>
+          -- the store is non-empty but the chain is empty: impossible for a reachable state … via `par`
+          rcases d.parent with hp | ⟨p, hp, hp1, hp2⟩
+          · rw [hp.1] at hzS'; cases hzS'
+          · have hzp : z = p := h.store.uniq hzS hp (by rw [hp1]; exact hch.1.symm)
+            subst hzp
+            -- walk down from `z`: it is off the empty chain, so it has a stored parent of smaller id, forever
+            have key : ∀ n (a : ABlock), a.id ≤ n → a ∈ stored st → False := by
+              intro n
+              induction n with
+              | zero => intro a ha hs; have := (h.store.ids a hs).2.1; omega
+              | succ n ih =>
+                intro a ha hs
+                rcases h.chainOk.par a hs with h1 | h1 | ⟨p', hp', _, hp2'⟩
+                · cases h1
+                · exact (h.store.ids a hs).1 h1
+                · exact ih p' (by omega) hp'
+            exact key z.id z (Nat.le_refl _) hzS
+      · have htl : t ∈ lc := List.mem_of_getLast? ht
+        have : z = t := h.store.uniq hzS (h.chainOk.lcStored t htl) (by rw [← hbt]; exact hch.1.symm)
+        rw [this] at hzl; exact hzl htl
+  rw [hdrop, List.nil_append] at hN
+  subst hN
+  rcases htip with h0 | ⟨t, ht, hbt⟩
+  · subst h0
+    have hP : P = [] := by
+      cases P with
+      | nil => rfl
+      | cons a P => simp at e1
+    subst hP
+    simpa using hinv
+  · -- the last block of `P` is the tip, so nothing is above it
+    have hch : ChainR (b :: P.reverse) := by simpa using hinv.chainOk.chain
+    have htl : t ∈ lc := List.mem_of_getLast? ht
+    have hPne : P ≠ [] := by
+      intro e; subst e
+      rcases d.parent with hp | ⟨p, hp, hp1, hp2⟩
+      · have := h.chainOk.lcStored t htl; rw [hp.1] at this; cases this
+      · have h1 : b.id = 1 := by simpa [ChainR] using hch
+        have := (h.store.ids p hp).2.1; omega
+    obtain ⟨z, zs, hz⟩ : ∃ z zs, P.reverse = z :: zs := by
+      cases hr : P.reverse with
+      | nil => exact absurd (List.reverse_eq_nil_iff.1 hr) hPne
+      | cons z zs => exact ⟨z, zs, rfl⟩
+    rw [hz] at hch
+    have hzP : z ∈ P := by rw [← List.mem_reverse, hz]; simp
+    have hzl : z ∈ lc := by rw [e1]; simp [hzP]
+    have hzt : z = t := h.store.uniq (h.chainOk.lcStored z hzl) (h.chainOk.lcStored t htl)
+      (by rw [← hbt]; exact hch.1.symm)
+    have hid1 : z.id = P.length := by
+      have := ChainR_id hch.2.2
+      have hl : P.length = zs.length + 1 := by rw [← List.length_reverse, hz]; rfl
+      omega
+    obtain ⟨hh, hlat⟩ := h.latest_len
+    have hid2 : t.id = lc.length := by
+      have := h.latest
+      rw [ht, hlat] at this
+      simp only [Option.some.injEq, Prod.mk.injEq] at this
+      exact this.1.symm
+    have hO : O = [] := by
+      have : lc.length = P.length + O.length := by rw [e1]; simp
+      have : O.length = 0 := by rw [hzt] at hid1; omega
+      exact List.length_eq_zero_iff.1 this
+    subst hO
+    rw [e1, List.append_nil]
+    exact hinv
+
+/-- **The state invariant is preserved by `add_block`** — for every non-orphan delivery, whatever the outcome
+    (`addedSide`, `invalid`, `addedLc`; `stall` and the `latest` panic cannot happen; the supply-audit panic
+    happens after a completed reorganisation and also leaves a consistent state).  All four branches (i)–(iv)
+    are covered; `exists_` is `addBlock_exists_unchanged`. -/
+theorem addBlock_preserves_inv (fl : Flags) (hd : fl.ringDeleteKeepsNone = true) (hf : fl.windFailureRestores = true)
+    (hv : fl.txVerdict = true) (st : State) (b : ABlock) (q : List Nat) (h : StInv st) (d : Deliverable st b) :
+    StInv (addBlock fl st b q).1 := by
+  obtain ⟨lc, h⟩ := h
+  rcases addBlock_cases fl hd hf hv h d q with h1 | h1 | ⟨_, P, O, N, _, h2, _⟩
+  · exact ⟨lc, h1.2⟩
+  · exact ⟨lc, h1.2.1⟩
+  · exact ⟨P ++ N, h2⟩
+
+/-- the only outcomes of a non-orphan delivery -/
+theorem addBlock_outcomes (fl : Flags) (hd : fl.ringDeleteKeepsNone = true) (hf : fl.windFailureRestores = true)
+    (hv : fl.txVerdict = true) (st : State) (b : ABlock) (q : List Nat) (h : StInv st) (d : Deliverable st b) :
+    (addBlock fl st b q).2 = .addedSide ∨ (addBlock fl st b q).2 = .invalid ∨ (addBlock fl st b q).2 = .addedLc ∨
+      (addBlock fl st b q).2 = .panic := by
+  obtain ⟨lc, h⟩ := h
+  rcases addBlock_cases fl hd hf hv h d q with h1 | h1 | h1
+  · exact Or.inl h1.1
+  · exact Or.inr (Or.inl h1.1)
+  · exact Or.inr (Or.inr h1.1)
+
+/-- the invariant holds in the empty state -/
+theorem inv_empty (g : Nat) : StInv { gp := g } := StInv.empty g
+
+
+/-! ### non-vacuity: a concrete history with a side branch, a successful reorganisation and a rejected block -/
+def ifl : Flags := { ringDeleteKeepsNone := true, windFailureRestores := true, txVerdict := true }
+
+def ib (h p i : Nat) (ins outs : List Nat) (ok : Bool := true) : ABlock :=
+  { hash := h, prev := p, id := i, burnfee := 10, hasGT := true, ok := ok, ins := ins, outs := outs }
+
+/-- genesis 1 (creates keys 10, 11), chain 1←2←3, side blocks 4 (child of 1, spends 10 like block 2) and 5,
+    then 6 (child of 5: the side branch overtakes — reorganisation), then 7 (child of 6, header invalid) -/
+def iblocks : List ABlock :=
+  [ib 1 0 1 [] [10, 11], ib 2 1 2 [10] [12], ib 3 2 3 [12] [13], ib 4 1 2 [10] [14], ib 5 4 3 [14, 11] [15],
+   ib 6 5 4 [15] [16], ib 7 6 5 [16] [17] false]
+
+def istate (n : Nat) : State := (iblocks.take n).foldl (fun s b => (addBlock ifl s b []).1) { gp := 100 }
+
+/-- what the model answers along the history, and the final observables -/
+theorem inv_witness_run :
+    iblocks.zipIdx.map (fun p => (addBlock ifl (istate p.2) p.1 []).2) =
+      [.addedLc, .addedLc, .addedLc, .addedSide, .addedSide, .addedLc, .invalid] ∧
+    lcDump (istate 5) = [(1, 1), (2, 2), (3, 3)] ∧
+    lcDump (istate 6) = [(1, 1), (2, 4), (3, 5), (4, 6)] ∧
+    lcDump (istate 7) = [(1, 1), (2, 4), (3, 5), (4, 6)] ∧
+    ringDump (istate 7) = [(1, 1), (2, 2), (2, 4), (3, 3), (3, 5), (4, 6)] ∧
+    (istate 7).utxo = (istate 6).utxo := by decide +kernel
+
+/-- the final state satisfies the invariant — by seven applications of the preservation theorem (every
+    delivery is `Deliverable`) -/
+theorem inv_witness6 : StInv (istate 6) := by
+  have h0 : StInv (istate 0) := StInv.empty 100
+  have h1 : StInv (istate 1) := addBlock_preserves_inv ifl rfl rfl rfl (istate 0) (ib 1 0 1 [] [10, 11]) [] h0
+    (by constructor <;> decide +kernel)
+  have h2 : StInv (istate 2) := addBlock_preserves_inv ifl rfl rfl rfl (istate 1) (ib 2 1 2 [10] [12]) [] h1
+    (by constructor <;> decide +kernel)
+  have h3 : StInv (istate 3) := addBlock_preserves_inv ifl rfl rfl rfl (istate 2) (ib 3 2 3 [12] [13]) [] h2
+    (by constructor <;> decide +kernel)
+  have h4 : StInv (istate 4) := addBlock_preserves_inv ifl rfl rfl rfl (istate 3) (ib 4 1 2 [10] [14]) [] h3
+    (by constructor <;> decide +kernel)
+  have h5 : StInv (istate 5) := addBlock_preserves_inv ifl rfl rfl rfl (istate 4) (ib 5 4 3 [14, 11] [15]) [] h4
+    (by constructor <;> decide +kernel)
+  exact addBlock_preserves_inv ifl rfl rfl rfl (istate 5) (ib 6 5 4 [15] [16]) [] h5
+    (by constructor <;> decide +kernel)
+
+theorem inv_witness : StInv (istate 7) :=
+  addBlock_preserves_inv ifl rfl rfl rfl (istate 6) (ib 7 6 5 [16] [17] false) [] inv_witness6
+    (by constructor <;> decide +kernel)
+
+
+/-- why `txVerdict = true` is a hypothesis: with the verdict not propagated, block 2 (honest header, input 99
+    that nobody created) is wound; when the side branch 3←4 overtakes it, unwinding block 2 "returns" key 99 —
+    the spendable set is no longer the replay of the longest chain -/
+theorem txVerdict_needed_witness :
+    let fl : Flags := { ringDeleteKeepsNone := true, windFailureRestores := true, txVerdict := false }
+    let st := [ib 1 0 1 [] [10], ib 2 1 2 [99] [12], ib 3 1 2 [] [13], ib 4 3 3 [] [14]].foldl
+      (fun s b => (addBlock fl s b []).1) { gp := 100 }
+    lcDump st = [(1, 1), (2, 3), (3, 4)] ∧ 99 ∈ st.utxo ∧
+      99 ∉ replay [ib 1 0 1 [] [10], ib 3 1 2 [] [13], ib 4 3 3 [] [14]] := by
+  decide +kernel
 
 end Saito.C03
